@@ -32,6 +32,8 @@ for pid in sorted(os.listdir(base)):
                     tail = " (no failing input found)" if v["violation"] and v["violation"][0].endswith("no-failing-input-found") else ""
                     parts.append(f"**{c}: VIOLATION**{tail}")
                 else:
-                    parts.append(f"{c}: passed (missed)")
+                    parts.append(f"{c}: passed")
             verdict = "; ".join(parts)
+            if not any(v["exit"] != 0 for v in checks.values()):
+                verdict += " (missed)" if not meta.get("not_a_violation") else " (" + meta["not_a_violation"] + ")"
         print(f"| {pid}/{k} | {files} | {what} | {'yes' if res.get('applies_to_current_head') else ('no' if res else '?')} | {verdict} |")
